@@ -57,36 +57,36 @@ type FilterEvent struct {
 }
 
 type Call struct {
-	ID        int
-	Res       *ResDesc
-	Method    string
-	Args      []reflect.Value
-	Expect    []reflect.Value
-	Out       Outcome
-	Inv       []Invocation
-	Filt      []FilterEvent
-	Rets      []reflect.Value
-	Err       error
-	Panicked  string
-	Done      bool
-	Exchanges []*Exchange
-	NoFaults  bool
-	Mutate    func(*http.Request, *Exchange)
-	MutateWire func([]byte, *Exchange) []byte
-	MutateResp func(http.Header, []byte, *Exchange) (http.Header, []byte)
-	cancel    func()
-	client    reflect.Value
-	Desc      string
-	Twin      *Call
-	Tag       string
-	ExpectMethod string // restli method name the filters must see
-	MustReject   bool   // the client has to refuse this call before anything is sent (C07)
-	View         string // the request as the first filter saw it (after de-tunnelling)
+	ID                                           int
+	Res                                          *ResDesc
+	Method                                       string
+	Args                                         []reflect.Value
+	Expect                                       []reflect.Value
+	Out                                          Outcome
+	Inv                                          []Invocation
+	Filt                                         []FilterEvent
+	Rets                                         []reflect.Value
+	Err                                          error
+	Panicked                                     string
+	Done                                         bool
+	Exchanges                                    []*Exchange
+	NoFaults                                     bool
+	Mutate                                       func(*http.Request, *Exchange)
+	MutateWire                                   func([]byte, *Exchange) []byte
+	MutateResp                                   func(http.Header, []byte, *Exchange) (http.Header, []byte)
+	cancel                                       func()
+	client                                       reflect.Value
+	Desc                                         string
+	Twin                                         *Call
+	Tag                                          string
+	ExpectMethod                                 string // restli method name the filters must see
+	MustReject                                   bool   // the client has to refuse this call before anything is sent (C07)
+	View                                         string // the request as the first filter saw it (after de-tunnelling)
 	thresholdSel, threshold, queryLen, damageSel int
-	wantStatus   int // a deliberately damaged request must be answered with this status
-	wantDupReject bool // duplicate keys: the client must refuse before sending
-	byzClient    bool // the request was rewritten to carry a value at an excluded path
-	superset     bool // the (Byzantine) server mentioned a key that was never requested
+	wantStatus                                   int  // a deliberately damaged request must be answered with this status
+	wantDupReject                                bool // duplicate keys: the client must refuse before sending
+	byzClient                                    bool // the request was rewritten to carry a value at an excluded path
+	superset                                     bool // the (Byzantine) server mentioned a key that was never requested
 }
 
 //go:norace
@@ -103,20 +103,20 @@ var errorType = reflect.TypeOf((*error)(nil)).Elem()
 // World is one simulated deployment: a server with registered mocks behind a mounting,
 // a simulated network and generated clients.
 type World struct {
-	c       *harness.Ctx
-	sim     *kern.Sim
-	net     *Net
-	g       *Gen
-	res     []*ResDesc
-	mocks   map[*ResDesc]reflect.Value
-	clients map[*ResDesc]reflect.Value
-	rc      *restli.Client
-	calls   []*Call
-	strays  []Invocation
-	mount   string
-	base    string
-	nfilt   int
-	filtFail int // index of a filter that fails (-1 none)
+	c          *harness.Ctx
+	sim        *kern.Sim
+	net        *Net
+	g          *Gen
+	res        []*ResDesc
+	mocks      map[*ResDesc]reflect.Value
+	clients    map[*ResDesc]reflect.Value
+	rc         *restli.Client
+	calls      []*Call
+	strays     []Invocation
+	mount      string
+	base       string
+	nfilt      int
+	filtFail   int // index of a filter that fails (-1 none)
 	viewFilter bool
 	srv        restli.Server
 	late       *ResDesc // registered on srv by a task after Handler() was taken
